@@ -199,6 +199,10 @@ def _execute(spec, ses):
         # known finding KF-C17-quantile-divisions: divisions produced by set_index / sort_values come from
         # quantile sampling of the (re-imported) partitions and are not reproduced exactly after a cut
         skip_div = bool(tail_ops & {"set_index", "sort_values"}) and not spec.get("compare_divisions_always")
+        # after sort_values the index is no longer ordered, whatever the plan still declares as divisions (a C06-type
+        # question): divisions are not compared downstream of a sort by column either
+        if any(by_id[i]["op"] == "sort_values" for i in W.cone(recipe, [at])) and not spec.get("compare_divisions_always"):
+            skip_div = True
         # a multi-input op in the tail aligns its inputs by divisions; which inputs count as co-aligned depends on
         # expression identity, which a cut changes by design: the resulting divisions are valid but need not be equal
         if any(len(W.op_srcs(by_id[i])) > 1 for i in (W.cone(recipe, [t]) - W.cone(recipe, [at]))) and not spec.get("compare_divisions_always"):
